@@ -21,8 +21,8 @@ from fsmc.explorer import ProductSystem, ListSystem
 PID = "C04"
 RULE = ("(a) labellings of tissues, per internal interface; (b) full estimator grid; (c) all connected sub-tissues x cell orders x tension vectors; (d) equilibrium tissues x k; "
         "non-trivial = at least one curved internal interface; classes = per-system signatures")
-BOUND = {"quick": "(a) all 2^6 orientation patterns + orders/shifts (deviation bound 2) on 2 tissues; (b) 15 x 30 x 24 x 3 x 2 grid; (c) all connected sub-tissues of a 7-cell base x 3 cell orders x (basis + 2 patterns); (d) 3 tissues x k in {3,5,8,15}",
-         "thorough": "(a) 2^11 patterns; (c) all sub-tissues of an 11-cell base; (d) 6 tissues"}
+BOUND = {"quick": "(a) all 2^6 orientation patterns + orders/shifts (deviation bound 2) on 2 tissues; (b) 15 x 30 x 24 x 3 x 2 grid; (c) all connected sub-tissues of a 7-cell base x 3 cell orders x (basis + 2 patterns); (d) 3 tissues x k in {3,5,8,15}; (a) also on lens / 5-fold fan / square / brick lattices, with subsets of interfaces reduced to two points among curved ones; (c) also with the interfaces of one cell reduced to two points",
+         "thorough": "(a) 2^11 patterns, shapes at deviation bound 2; (c) all sub-tissues of an 11-cell base, of the 5-fold fan and of square3x3; (d) 6 tissues"}
 ASSUMPTIONS = ["the magnitude of a row's right-hand side is compared with the library's own public total turning (its accuracy is sub-check (b))",
                "the solution clause is judged where the internal interfaces link all cells that have one into a single group",
                "tolerances: 1e-9 relative (solution vs reference), 3% (estimator), Pearson 0.9 (physics)"]
